@@ -508,7 +508,24 @@ def ev(n, env, funcs=None):
         if fname == 'isinstance' and len(n.args) == 2:
             v0 = ev(n.args[0], env, funcs)
             cls = n.args[1].elts if isinstance(n.args[1], ast.Tuple) else [n.args[1]]
-            names = {_unparse(c).split('.')[-1] for c in cls}
+            names = set()
+            for c in cls:
+                nm_ = _unparse(c).split('.')[-1]
+                # a class held in a variable (a dispatch table of (type, handler) pairs): the class it denotes, not the variable's name
+                if isinstance(c, (ast.Name, ast.Attribute, ast.Subscript)) and (not isinstance(c, ast.Name) or c.id in env):
+                    try:
+                        cv = ev(c, env, funcs)
+                    except (Unsupported, KeyError, IndexError, AttributeError):
+                        cv = None
+                    for one in (cv if isinstance(cv, tuple) else (cv,)):
+                        if isinstance(one, type):
+                            names.add(one.__name__)
+                            nm_ = None
+                        elif one is not None and hasattr(one, '_qual'):
+                            names.add(str(one._qual).split('.')[-1])
+                            nm_ = None
+                if nm_ is not None:
+                    names.add(nm_)
             if isinstance(v0, Obj):
                 return True if not v0.isa else bool(v0.isa & names)
             if isinstance(v0, PyStub):
